@@ -15,12 +15,18 @@ open Apko Apko.Path Apko.Confine
 -- T `trans_isWithinApk`: `isWithin` of pkg/apk/apk/common.go, translated, is the model's `isWithin`.
 theorem trans_isWithinApk (base p : Text) : Generated.Trans.isWithinApk base p = isWithin base p := by
   unfold Generated.Trans.isWithinApk isWithin
-  by_cases h : p = clean base <;> by_cases h2 : hasSuffix (clean base) slash = true <;> simp [h, h2]
+  by_cases h : p = clean base
+  · subst h; simp
+  · have hs : ¬ clean base = p := fun e => h e.symm
+    by_cases h2 : hasSuffix (clean base) slash = true <;> simp [h, hs, h2]
 
 -- T `trans_isWithinFs`: `isWithin` of pkg/apk/fs/rwosfs.go (the same body), translated, is the model's.
 theorem trans_isWithinFs (base p : Text) : Generated.Trans.isWithinFs base p = isWithin base p := by
   unfold Generated.Trans.isWithinFs isWithin
-  by_cases h : p = clean base <;> by_cases h2 : hasSuffix (clean base) slash = true <;> simp [h, h2]
+  by_cases h : p = clean base
+  · subst h; simp
+  · have hs : ¬ clean base = p := fun e => h e.symm
+    by_cases h2 : hasSuffix (clean base) slash = true <;> simp [h, hs, h2]
 
 -- T `trans_sanitizeArchivePath`: `sanitizeArchivePath(d, t)`, translated (`none` = the error), is the model's.
 theorem trans_sanitizeArchivePath (d t : Text) :
